@@ -157,6 +157,7 @@ func init() {
 			rn.Floor("index_sites", 100)
 			res.Merge(rn)
 			res.Merge(flagx.RunLenValue(def, core.Pkgs("./blas/gonum")))
+			res.Merge(swapx.RunLogicDup(def, core.Pkgs("./blas/gonum")))
 			ro := flagx.RunRetOffset(def, core.Pkgs("./blas/gonum"))
 			res.Merge(ro)
 			cs := loopidx.RunContinueSkip(def, core.Pkgs(blasPkgs...))
@@ -247,6 +248,7 @@ func lapackProp(self, other, what string) *property {
 			res.Merge(loopidx.RunStaleFlag(def, sc))
 			res.Merge(flagx.RunSentinel(def, sc))
 			res.Merge(flagx.RunLenValue(def, sc))
+			res.Merge(swapx.RunLogicDup(def, sc))
 			o := lapackArgs
 			a := args.Run(def, core.Scope{Patterns: []string{"./lapack/gonum"}, Files: sc.Files}, o)
 			a.Floor("entry_points", 50)
@@ -387,6 +389,7 @@ func init() {
 			ue := zeroed.RunUseEmpty(def)
 			ue.Floor("reuses_of_the_receivers_backing_slice", 7)
 			res.Merge(ue)
+			res.Merge(swapx.RunLogicDup(def, core.Pkgs("./mat")))
 			rc := zeroed.RunResetCaps(def)
 			rc.Floor("capacity_fields_of_resettable_types", 3)
 			res.Merge(rc)
@@ -474,6 +477,9 @@ func init() {
 			sg.Floor("exit_guards", 15)
 			res.Merge(sg)
 			asm := []string{"./internal/asm/f64", "./internal/asm/f32", "./internal/asm/c128", "./internal/asm/c64"}
+			ld := swapx.RunLogicDup(core.Config{Tags: "noasm"}, core.Pkgs(append([]string{"./floats/...", "./cmplxs/...", "./internal/math32", "./internal/cmplx64"}, asm...)...))
+			ld.Floor("logical_connectives", 30)
+			res.Merge(ld)
 			for _, cfg := range []core.Config{{}, {Tags: "noasm"}} {
 				r := stride.Run(cfg, core.Pkgs(asm...))
 				res.Merge(r)
@@ -685,6 +691,7 @@ func init() {
 			sw := swapx.Run(def, core.Pkgs("./graph/simple", "./graph/multi", "./graph/iterator", "./graph/set/uid"))
 			sw.Floor("swaps_guarded_by_a_comparison_of_two_variables", 4)
 			res.Merge(sw)
+			res.Merge(swapx.RunLogicDup(def, core.Pkgs("./graph/simple", "./graph/multi", "./graph/iterator", "./graph/set/uid")))
 			pu := paramuse.Run(def, core.Pkgs("./graph/simple", "./graph/multi", "./graph/iterator", "./graph/set/uid"))
 			pu.Floor("parameters", 220)
 			res.Merge(pu)
@@ -990,6 +997,8 @@ func dump(argv []string) {
 		res = zeroed.RunResetCaps(def)
 	case "zerolen":
 		res = matargs.RunZeroLen(def)
+	case "logicdup":
+		res = swapx.RunLogicDup(def, core.Pkgs(argv[1:]...))
 	case "workquery":
 		res = flagx.RunWorkQuery(def, core.Pkgs(argv[1:]...))
 	case "betascale":
